@@ -417,9 +417,17 @@ def mon_conn_offence(ctx, conn):
     if dispatched_after:
         viol(ctx, conn, "stream-opened-after-connection-error", dict(offence=kind, sids=dispatched_after))
     if not returned:
-        site = ga[2] if ga else "-"
-        viol(ctx, conn, "connection-not-closed-after-connection-error", dict(offence=kind, site=site),
-             known_class="goaway-never-closes:" + site)
+        # "... once the streams it promised have finished": a response still held back by a window the peer never
+        # opened is a promise not yet kept, not a connection that fails to close
+        last_gauge = None
+        for op, out in conn.steps:
+            m = re.match(r"ok strms=(\d+) open=(-?\d+) ", out)
+            if m:
+                last_gauge = (int(m.group(1)), int(m.group(2)))
+        if last_gauge is None or last_gauge == (0, 0):
+            site = ga[2] if ga else "-"
+            viol(ctx, conn, "connection-not-closed-after-connection-error", dict(offence=kind, site=site),
+                 known_class="goaway-never-closes:" + site)
 
 
 def mon_limits(ctx, conn):
